@@ -495,3 +495,336 @@ def replay_store(rec, verbose=True):
         for f in agg.fails:
             print("FAIL", f["key"], f.get("expected"), f.get("observed"))
     return bool(agg.fails)
+
+
+# ---------------------------------------------------------------------------------------------
+# C06 / C07: the WebAssembly backend
+# ---------------------------------------------------------------------------------------------
+_WT = {}
+
+
+def _engine():
+    import wasmtime
+    if "engine" not in _WT:
+        _WT["engine"] = wasmtime.Engine()
+    return _WT["engine"]
+
+
+def f32(x):
+    import struct
+    try:
+        return struct.unpack("<f", struct.pack("<f", x))[0]
+    except OverflowError:
+        return float("inf") if x > 0 else float("-inf")
+
+
+def w_eval(e, env, single):
+    """Reference evaluation of a W-family tree; `single` rounds every float result to binary32.
+    -> (type, value); raises Unspec for int overflow, float division by zero and inexact int->float."""
+    from .refsem import Unspec
+    k = e[0]
+    if k == "lit":
+        v = e[2]
+        if e[1] == "float" and single and f32(v) != v:
+            raise Unspec("float literal not exact in binary32")
+        return e[1], v
+    if k == "var":
+        t, v = env[e[1]]
+        return t, v
+    _, op, l, r = e
+    lt, lv = w_eval(l, env, single)
+    rt, rv = w_eval(r, env, single)
+    t = "float" if "float" in (lt, rt) else "int"
+    if t == "float":
+        for tt, vv in ((lt, lv), (rt, rv)):
+            if tt == "int" and f32(float(vv)) != float(vv):
+                raise Unspec("int->float conversion not exact in binary32")
+        a, b = float(lv), float(rv)
+    else:
+        a, b = lv, rv
+    if op in ("==", "<", ">"):
+        return "int", int({"==": a == b, "<": a < b, ">": a > b}[op])
+    if op == "/":
+        if b == 0:
+            if t == "int":
+                raise ZeroDivisionError()
+            raise Unspec("float division by zero")
+        if t == "int":
+            q = abs(a) // abs(b)
+            v = q if (a < 0) == (b < 0) else -q
+        else:
+            v = a / b
+    else:
+        v = {"+": a + b, "-": a - b, "*": a * b}[op]
+    if t == "int":
+        if not (-(1 << 31) <= v < (1 << 31)):
+            raise Unspec("integer outside the signed 32-bit range")
+        return t, v
+    if single:
+        v = f32(v)
+    if v != v or v in (float("inf"), float("-inf")):
+        raise Unspec("float overflow")
+    return t, v
+
+
+def wasm_prepare(data):
+    """Compile/instantiate once per module: -> dict with wasmtime and reference handles (or their 'invalid' verdicts)."""
+    import wasmtime
+    from . import wasmref
+    h = {}
+    try:
+        eng = _engine()
+        mod = wasmtime.Module(eng, data)
+        store = wasmtime.Store(eng)
+        inst = wasmtime.Instance(store, mod, [])
+        h["wasmtime"] = ("ok", store, inst.exports(store))
+    except BaseException as e:
+        h["wasmtime"] = ("invalid", f"{type(e).__name__}: {str(e)[:120]}")
+    try:
+        m = wasmref.decode(data)
+        wasmref.validate(m)
+        h["ref"] = ("ok", m)
+    except (wasmref.Malformed, wasmref.Invalid) as e:
+        h["ref"] = ("invalid", f"{type(e).__name__}: {e}")
+    return h
+
+
+def wasm_run(h, entry, argvals):
+    """-> {'wasmtime': outcome, 'ref': outcome}; outcome = ('ok', value) | ('trap', msg) | ('invalid', msg) | ('no-export', name)"""
+    import wasmtime
+    from . import wasmref
+    out = {}
+    wt = h["wasmtime"]
+    if wt[0] != "ok":
+        out["wasmtime"] = wt
+    else:
+        fn = wt[2].get(entry)
+        if fn is None:
+            out["wasmtime"] = ("no-export", entry)
+        else:
+            try:
+                out["wasmtime"] = ("ok", fn(wt[1], *argvals))
+            except (wasmtime.Trap, wasmtime.WasmtimeError) as e:
+                out["wasmtime"] = ("trap", str(e).splitlines()[0][:80])
+    rf = h["ref"]
+    if rf[0] != "ok":
+        out["ref"] = rf
+    else:
+        try:
+            out["ref"] = ("ok", wasmref.Instance(rf[1]).call_export(entry, argvals))
+        except wasmref.Trap as e:
+            out["ref"] = ("trap", str(e))
+        except KeyError:
+            out["ref"] = ("no-export", entry)
+    return out
+
+
+def _same_num(a, b):
+    if a is None or b is None:
+        return a is b
+    if isinstance(a, float) or isinstance(b, float):
+        return float(a) == float(b)
+    return a == b
+
+
+def wasm_agree(prop, case, agg, units=None):
+    """C06: VM == wasmtime == reference wasm interpreter, or refusal (refusal is a violation only inside the subset)."""
+    from . import lang
+    from .engine import case_prog, short, vm_outcome
+    from .nslapi import compile_src, link
+    from .refsem import Unspec
+
+    units = case["units"] if units is None else units
+    src = case["src"] if "src" in case else lang.render(case_prog(case, units), case.get("mode", "min"))
+    inside = case["fam"] == "W" and "src" not in case
+    res = compile_src(src, {"wasm": True})
+    if res.status != "ok" and len(units) > 1:
+        h = len(units) // 2
+        wasm_agree(prop, case, agg, units[:h])
+        wasm_agree(prop, case, agg, units[h:])
+        return
+    desc = (units[0].get("desc") if len(units) == 1 else None) or case["desc"]
+    agg.evals += 1
+    if res.status != "ok":
+        agg.stats["refused:" + str(res.exc)] += 1
+        if res.status in ("reject",):
+            agg.stats["front-end-reject"] += 1
+            return
+        if inside:
+            agg.nontrivial += 1
+            agg.fail({"key": f"{prop}|{case['fam']}|refused-inside-subset|{res.exc}@{res.where}|{desc}", "source": src, "options": {"wasm": True},
+                      "expected": "a module that agrees with the VM (scalar straight-line subset)", "observed": f"{res.cls()} {res.msg or ''}"})
+        return
+    data = res.wasm_bytes
+    handles = wasm_prepare(data)
+    try:
+        program = link(res.module)
+    except BaseException:
+        program = None
+    for u in units:
+        ud = u.get("desc") or case["desc"]
+        f = u["funcs"][0] if u["funcs"] else None
+        for args, globs in u["inputs"]:
+            agg.evals += 1
+            order = [n for _, n in f["params"]] if f else list(args)
+            argvals = [args[n] for n in order]
+            if any(isinstance(v, (list, dict)) for v in argvals):
+                # non-scalar parameters cannot be passed to a wasm function by a host: only validity is judged (C07)
+                agg.stats["non-scalar-arguments-skipped"] += 1
+                continue
+            # expectation
+            want = None
+            if f is not None and f["body"] and f["body"][0][0] == "ret" and inside:
+                env = {n: (t, args[n]) for t, n in f["params"]}
+                try:
+                    t64, v64 = w_eval(f["body"][0][1], env, False)
+                    t32, v32 = w_eval(f["body"][0][1], env, True)
+                    if t64 == "float" and f32(v64) != v32:
+                        agg.stats["unspecified:binary32/binary64 differ"] += 1
+                        continue
+                    want = ("ok", v32)
+                except ZeroDivisionError:
+                    want = ("trap",)
+                except Unspec as uu:
+                    agg.stats["unspecified:" + str(uu)] += 1
+                    continue
+            else:
+                vm = vm_outcome(program, u["entry"], args, globs) if program is not None else ("exc", "link", "link")
+                if globs:
+                    agg.stats["globals-not-settable-in-wasm"] += 1
+                if vm[0] == "ok":
+                    v = vm[1]
+                    if isinstance(v, float):
+                        if f32(v) != v:
+                            agg.stats["unspecified:VM float result not exact in binary32"] += 1
+                            continue
+                    elif isinstance(v, int) and not (-(1 << 31) <= v < (1 << 32)):
+                        agg.stats["unspecified:VM int result outside 32 bits"] += 1
+                        continue
+                    elif isinstance(v, (list, dict)):
+                        agg.stats["non-scalar-result-skipped"] += 1
+                        continue
+                    want = ("ok", v)
+                elif vm[0] == "exc" and vm[1] == "ZeroDivisionError":
+                    want = ("trap",)
+                else:
+                    agg.stats["vm-fails(C05)"] += 1
+                    continue
+            agg.nontrivial += 1
+            got = wasm_run(handles, u["entry"], argvals)
+            bad = None
+            for eng in ("wasmtime", "ref"):
+                g = got[eng]
+                if g[0] == "invalid":
+                    bad = ("invalid-module", eng, g[1])
+                elif g[0] == "no-export":
+                    bad = ("export-missing", eng, g[1])
+                elif want[0] == "trap":
+                    if g[0] != "trap":
+                        bad = ("no-trap-on-division-by-zero", eng, short(g))
+                elif g[0] != "ok":
+                    bad = ("unexpected-trap", eng, short(g))
+                else:
+                    w, v = want[1], g[1]
+                    if isinstance(w, int) and isinstance(v, int):
+                        ok = (w & 0xFFFFFFFF) == (v & 0xFFFFFFFF)
+                    elif w is None:
+                        ok = v is None
+                    else:
+                        ok = v is not None and _same_num(w, v)
+                    if not ok:
+                        bad = ("wrong-result", eng, short(v))
+                if bad:
+                    break
+            if bad:
+                agg.fail({"key": f"{prop}|{case['fam']}|{bad[0]}|{ud}", "source": src if len(units) == 1 else lang.render(case_prog(case, [u]), case.get("mode", "min")),
+                          "options": {"wasm": True}, "entry": u["entry"], "inputs": {"args": args, "globals": globs},
+                          "expected": short(want), "observed": f"{bad[1]}: {bad[2]}"})
+                break
+    if len(agg.samples) < 2:
+        agg.samples.append({"source": src[:400], "entry": units[0]["entry"], "inputs": short(units[0]["inputs"][:2], 150)})
+
+
+def replay_wasm_agree(rec, verbose=True):
+    from .engine import Agg
+    agg = Agg()
+    u = {"funcs": [], "entry": rec.get("entry", "f"), "inputs": [(rec["inputs"]["args"], rec["inputs"]["globals"])] if "inputs" in rec else []}
+    case = {"fam": "WO", "desc": "replay", "src": rec["source"], "units": [u]}
+    wasm_agree("C06", case, agg)
+    if verbose:
+        print(rec["source"], "\ninputs", rec.get("inputs"), "\nexpected", rec.get("expected"))
+        for f in agg.fails:
+            print("FAIL", f["key"], f["observed"])
+        if not agg.fails and "refused" in rec["key"]:
+            print("(recorded as a refusal inside the subset)")
+    if "refused-inside-subset" in rec["key"]:
+        from .nslapi import compile_src
+        return compile_src(rec["source"], {"wasm": True}).status not in ("ok", "reject")
+    return bool(agg.fails)
+
+
+def wasm_valid(prop, case, agg, units=None):
+    """C07: every emitted module decodes and validates as WebAssembly 1.0 (independent validator, wasmtime as cross-check)."""
+    import wasmtime
+    from . import lang, wasmref
+    from .engine import case_prog
+    from .nslapi import compile_src
+
+    units = case["units"] if units is None else units
+    src = case["src"] if "src" in case else lang.render(case_prog(case, units), case.get("mode", "min"))
+    res = compile_src(src, {"wasm": True})
+    if res.status != "ok" and len(units) > 1:
+        h = len(units) // 2
+        wasm_valid(prop, case, agg, units[:h])
+        wasm_valid(prop, case, agg, units[h:])
+        return
+    agg.evals += 1
+    desc = (units[0].get("desc") if len(units) == 1 else None) or case["desc"]
+    if res.status != "ok" or res.wasm_bytes is None:
+        agg.stats["no-module-emitted:" + res.status] += 1
+        return
+    agg.nontrivial += 1
+    data = res.wasm_bytes
+    verdict = None
+    try:
+        m = wasmref.decode(data)
+        agg.stats["functions"] += len(m.funcs)
+        try:
+            wasmref.validate(m)
+        except wasmref.Invalid as e:
+            verdict = ("invalid", _cls_msg(str(e)), str(e))
+    except wasmref.Malformed as e:
+        verdict = ("malformed", _cls_msg(str(e)), str(e))
+    try:
+        wasmtime.Module.validate(_engine(), data)
+        wt = None
+    except BaseException as e:
+        wt = str(e).splitlines()[0][:160]
+    if verdict is None and wt is not None:
+        verdict = ("validator-disagreement", "wasmtime-rejects", wt)
+    if verdict is not None:
+        nfun = src.count("function ")
+        agg.fail({"key": f"{prop}|{case['fam']}|{verdict[0]}|{verdict[1]}", "source": src, "options": {"wasm": True},
+                  "expected": "a valid WebAssembly 1.0 binary", "observed": f"{verdict[2]} | wasmtime: {wt or 'accepts'} | bytes {data.hex()[:160]}"})
+    if len(agg.samples) < 2:
+        agg.samples.append({"source": src[:400], "bytes": data.hex()[:120]})
+
+
+def _cls_msg(msg):
+    import re
+    msg = re.sub(r"function \d+: ", "", msg)
+    msg = re.sub(r"\d+", "N", msg)
+    msg = re.sub(r"'[^']*'", "'..'", msg)
+    return msg[:70]
+
+
+def replay_wasm_valid(rec, verbose=True):
+    from .engine import Agg
+    agg = Agg()
+    case = {"fam": "replay", "desc": "replay", "src": rec["source"], "units": [{"funcs": [], "entry": "f", "inputs": []}]}
+    wasm_valid("C07", case, agg)
+    if verbose:
+        print(rec["source"])
+        for f in agg.fails:
+            print("FAIL", f["key"], f["observed"])
+    return bool(agg.fails)
